@@ -17,6 +17,7 @@ variable {o : Bool}
 structure RelH (P : String → Bool) (GA : List String) (GG GL : List (String × Val)) (s s' : St) : Prop where
   out : s'.out = s.out
   imports : s'.imports = s.imports
+  mode : s'.locals.isSome = s.locals.isSome
   gget : ∀ x, x ∉ GA → Env.get s'.globals x = Env.get s.globals x
   isLocal : ∀ x, P x = true → s'.isLocal x = s.isLocal x
   lget : ∀ x, P x = true → s.isLocal x = true →
@@ -69,14 +70,20 @@ theorem out_assign (s : St) (x : String) (v : Val) : (s.assign x v).out = s.out 
 theorem imports_assign (s : St) (x : String) (v : Val) : (s.assign x v).imports = s.imports := by
   unfold St.assign; split <;> rfl
 
+theorem isSome_assign (s : St) (x : String) (v : Val) : (s.assign x v).locals.isSome = s.locals.isSome := by
+  unfold St.assign; split
+  · simp only [Option.isSome_map]
+  · rfl
+
 /-- both runs assign a name of the program -/
 theorem RelH.assign {s s' : St} (h : RelH P GA GG GL s s') (x : String) (hx : P x = true) (v : Val) :
     RelH P GA GG GL (s.assign x v) (s'.assign x v) := by
   have hloc := h.isLocal x hx
   have hxA : x ∉ GA := fun hm => by rw [h.freshA x hm] at hx; exact absurd hx (by simp)
-  refine ⟨?_, ?_, ?_, ?_, ?_, ?_, ?_, h.ggA, h.freshA, h.freshL⟩
+  refine ⟨?_, ?_, ?_, ?_, ?_, ?_, ?_, ?_, h.ggA, h.freshA, h.freshL⟩
   · rw [out_assign, out_assign]; exact h.out
   · rw [imports_assign, imports_assign]; exact h.imports
+  · rw [isSome_assign, isSome_assign]; exact h.mode
   · intro y hy
     by_cases hl : s.isLocal x = true
     · rw [globals_assign_local s x v hl, globals_assign_local s' x v (by rw [hloc]; exact hl)]; exact h.gget y hy
@@ -141,7 +148,7 @@ theorem RelH.assign {s s' : St} (h : RelH P GA GG GL s s') (x : String) (hx : P 
 
 theorem RelH.withOut {s s' : St} (h : RelH P GA GG GL s s') (f g : List String → List String) :
     RelH P GA GG GL { s with out := f s.out, imports := g s.imports } { s' with out := f s'.out, imports := g s'.imports } := by
-  refine ⟨?_, ?_, h.gget, ?_, ?_, ?_, ?_, h.ggA, h.freshA, h.freshL⟩
+  refine ⟨?_, ?_, h.mode, h.gget, ?_, ?_, ?_, ?_, h.ggA, h.freshA, h.freshL⟩
   · show f s'.out = f s.out; rw [h.out]
   · show g s'.imports = g s.imports; rw [h.imports]
   · intro y hy; exact h.isLocal y hy
@@ -427,6 +434,26 @@ theorem simpleExec_h {g : CMap} {s s' : St} (h : RelH P GA GG GL s s') (hs : Sta
       split
       · exact ⟨rfl, h⟩
       · trivial
+  case annAssign tg ann v simple =>
+    simp only [hoistStmt, simpleExec, h.mode]
+    simp only [namesS, List.all_append, Bool.and_eq_true] at hn
+    by_cases hcs : (s.locals.isSome && simple) = true
+    · simp only [hcs, if_true]
+      cases hx : nameOf tg with
+      | none => trivial
+      | some p =>
+        obtain ⟨x, c⟩ := p
+        have htg : tg = .name x c := by
+          cases tg <;> simp [nameOf] at hx
+          obtain ⟨h1, h2⟩ := hx; subst h1; subst h2; rfl
+        subst htg
+        have hPx : P x = true := by simpa [namesE] using hn.1.1
+        cases v with
+        | none => exact h
+        | some e =>
+          simp only [hoistO]
+          exact evalThen_h h hs hc e (by simpa [namesO, okE] using hn.2) _ _ (fun w => h.assign x hPx w)
+    · simp only [hcs, Bool.false_eq_true, if_false]; trivial
   all_goals (simp only [hoistStmt, simpleExec]; trivial)
 
 theorem callOf_h (g : CMap) (st : Stmt) :
@@ -648,7 +675,7 @@ theorem ResRel.mono {Q Q' : St → St → Prop} (hq : ∀ s s', Q s s' → Q' s 
 theorem RelH.back {s s' s1 s1' : St} (h : RelH P GA GG GL s s') (h1 : RelOut GA GG s1 s1') :
     RelH P GA GG GL { s with globals := s1.globals, out := s1.out, imports := s1.imports }
       { s' with globals := s1'.globals, out := s1'.out, imports := s1'.imports } := by
-  refine ⟨h1.out, h1.imports, h1.gget, ?_, ?_, ?_, ?_, h.ggA, h.freshA, h.freshL⟩
+  refine ⟨h1.out, h1.imports, h.mode, h1.gget, ?_, ?_, ?_, ?_, h.ggA, h.freshA, h.freshL⟩
   · intro y hy; exact h.isLocal y hy
   · intro y hy hly; exact h.lget y hy hly
   · intro a v hm; exact ⟨(h.gghost a v hm).1, h1.gghost a v hm⟩
